@@ -309,14 +309,14 @@ var c10Sizes = []int{64 * 1024, 64*1024 + 1, 70 * 1024, 200 * 1024}
 var c10Positions = []string{"first", "middle", "last", "first-then-big"}
 
 type c10CLICase struct {
-	Cmd   int    `json:"cmd"`
-	OnLog bool   `json:"onlog"`
-	Shape string `json:"shape"`
-	Size  int    `json:"size"`
-	Pos   string `json:"pos"`
-	Bin   bool   `json:"bin"`
-	End   bool   `json:"end,omitempty"`      // a global -e 2021/01/01: the unreadable part lies in days after the period
-	Defaults bool `json:"defaults,omitempty"` // the files are ./food.yaml and ./log.yaml of the working directory, no -d / -l
+	Cmd      int    `json:"cmd"`
+	OnLog    bool   `json:"onlog"`
+	Shape    string `json:"shape"`
+	Size     int    `json:"size"`
+	Pos      string `json:"pos"`
+	Bin      bool   `json:"bin"`
+	End      bool   `json:"end,omitempty"`      // a global -e 2021/01/01: the unreadable part lies in days after the period
+	Defaults bool   `json:"defaults,omitempty"` // the files are ./food.yaml and ./log.yaml of the working directory, no -d / -l
 }
 
 func c10LongFile(isLog bool, shape string, size int, pos string) string {
